@@ -11,7 +11,7 @@ import vcheck as V
 import re
 _re_known = re.compile(r'^<<"KNOWN", (\d+), (.*)>>$')
 
-DRIVER_FILES = ["detlib.go", "detsim.go", "inputsim.go"]
+DRIVER_FILES = ["detlib.go", "detsim.go", "inputsim.go", "repsim.go"]
 BATCHABLE = {"set", "setex", "hmset", "del"}
 
 
@@ -110,6 +110,14 @@ def classify_det(seg, stage, expected=None):
         # isolate stage only (unrestricted SET on HLL keys); in every other stage a mismatch on an
         # HLL key is judged like any other
         sig["class"] = "hll-cache"
+        return sig
+    if stage == "isolate-syncer" and logev.get("kind") == "syncer" and e.get("ev") in ("reply", "dump", "dumpn"):
+        # finding C07-syncer-conflict-filter: whether a syncer entry is ignored or executed depends on
+        # the replay flag, on the pending write batch (the filter reads committed modify times) and
+        # on a per-process time; the first visible difference may be the ignored entry's own reply or
+        # a later command on the same key.  Only this stage (unrestricted syncer entries) is excused;
+        # the general corpus carries syncer entries in the conflict-free shape and stays strict.
+        sig["class"] = "syncer-conflict"
         return sig
     if sig["kind"] == "straddle":
         sig["class"] = "wallclock"
